@@ -55,10 +55,10 @@ CLAIMED = {
         note=TRUST + "; asyncio.StreamReader.readexactly contract trusted (chunking-independent), induction over messages",
     ),
     "C02": dict(
-        category="other",
-        text="Entry codec, every option class (IPv4/IPv6 endpoint/multicast/SD-endpoint, load balancing, unknown types), configuration strings, the SD header split and flag bits are proved against the SOME/IP-SD layout for all field values and lengths (round trip with arbitrary suffix, layout by offset, 'unrepresentable fails or is rejected'); the parse/build loops are verified by loop contracts; _find is proved sound, index-safe and terminating with quantified invariants; assign-then-resolve is proved per entry for arbitrary shared arrays. The comprehension glue (assign_option_indexes/resolve_options over all entries) and send_sd are checked with a bounded number of entries, hence level other.",
+        category="proof",
+        text="Entry codec, every option class (IPv4/IPv6 endpoint/multicast/SD-endpoint, load balancing, unknown types), configuration strings, the SD header split and flag bits are proved against the SOME/IP-SD layout for all field values and lengths (round trip with arbitrary suffix, layout by offset, 'unrepresentable fails or is rejected'); the parse/build loops are verified by loop contracts; _find is proved sound, index-safe and terminating with quantified invariants; assign-then-resolve is proved per entry for arbitrary shared arrays; assign_option_indexes / resolve_options (comprehension contracts: arbitrary entry of arbitrarily many, shared array only grows) and send_sd (arbitrarily many entries) are unbounded as well.",
         design_ref="DESIGN.md 4/C02",
-        technique="contract refinement by symbolic execution of the real AST (byte ropes, loop contracts, quantified invariants, abstract contracts for loop-bearing callees) + SMT; bounded-shape symbolic check for the per-message glue",
+        technique="contract refinement by symbolic execution of the real AST (byte ropes, loop contracts, quantified invariants, comprehension contracts, abstract contracts for loop-bearing callees) + SMT",
         note=TRUST + "; induction over the number of elements is the trusted rule applied to proved init/step/exit obligations; _find completeness not claimed; defect D1 repaired by fix commit feb6620",
     ),
     "C03": dict(
